@@ -166,7 +166,7 @@ def audit_props(prop, vfile):
         if txt.startswith('Closed under the global context'):
             discharged += 1
         else:
-            axs = set(re.findall(r'^(\S+)\s*:', txt, re.M))
+            axs = set(a.split('.')[-1] for a in re.findall(r'^([A-Za-z_][\w.\']*)\s*$|^([A-Za-z_][\w.\']*)\s+:', txt, re.M) for a in a if a and a != 'Axioms')
             extra = axs - ALLOWED_AXIOMS
             if extra:
                 notes.append('theorem %s depends on %s' % (t, ', '.join(sorted(extra))))
